@@ -268,8 +268,11 @@ func (c *ctx) ocClientSends() {
 
 func init() {
 	props["C13"] = func(c *ctx) {
+		c.framingBoundary(0xc0, 0xc1)
 		c.ocClientSends()
 		c.ocClientResults(c.pick(120, 1500))
+		// decoding into the emulator's kept configuration while other goroutines encode
+		c.mixCases(c.pick(150, 1500), []int{4, 16})
 		// prior destination states: nil, shorter, longer, spare capacity, junk contents, aliasing an earlier result
 		mk := c.mkConf
 		c.ocUnmarshalSequences(c.pick(300, 3000))
